@@ -9,6 +9,7 @@ import (
 
 	"github.com/zenon-network/go-zenon/chain/nom"
 	"github.com/zenon-network/go-zenon/common/types"
+	"github.com/zenon-network/go-zenon/verifrt"
 
 	"verif/sim/nomsim"
 	"verif/sim/oracle"
@@ -437,8 +438,31 @@ func c14Content(r *simrt.Run, w *nomsim.World, p *simnode.Node) {
 	for _, b := range pool {
 		inPool[b.Hash] = true
 	}
+	// the order in which the pool's accounts are walked is the simulator's choice (map-order seam): six
+	// tape-chosen permutations; without the seam (tree under test changed that loop) the runtime's own
+	// varying map order takes its place
+	defer func() { verifrt.MapOrder = nil }()
 	for rep := 0; rep < 6; rep++ {
+		seedPerm := r.T.Uint64()
+		verifrt.MapOrder = func(n int) []int {
+			p := make([]int, n)
+			for i := range p {
+				p[i] = i
+			}
+			x := seedPerm
+			for i := n - 1; i > 0; i-- {
+				x += 0x9e3779b97f4a7c15
+				z := x
+				z = (z ^ (z >> 30)) * 0xbf58476d1ce4e5b9
+				z = (z ^ (z >> 27)) * 0x94d049bb133111eb
+				z ^= z >> 31
+				j := int(z % uint64(i+1))
+				p[i], p[j] = p[j], p[i]
+			}
+			return p
+		}
 		content := p.Chain.GetNewMomentumContent()
+		verifrt.MapOrder = nil
 		if len(content) > 100 {
 			r.Fail("momentum-content", "over-limit", "content offered for production has %d blocks (pool %d)", len(content), len(pool))
 		}
